@@ -42,6 +42,11 @@ class FuncInfo:
             elif any(d and d.endswith(".setter") for d in self.decorators):
                 self.kind = "setter"
         self.is_abstract = any(d and d.split(".")[-1] == "abstractmethod" for d in self.decorators)
+        try:        # lets an evaluation started on this body know its class / module (helper resolution, name mangling)
+            node._csa_cls = cls
+            node._csa_module = module
+        except AttributeError:
+            pass
 
     @property
     def qualname(self) -> str:
@@ -227,6 +232,8 @@ class Project:
                 self.sources[rel] = src
                 self.modules[modname] = Module(modname, path, rel, src)
         self._link_classes()
+        from .engines import resolve
+        resolve.install(self)       # the project most recently loaded in this process answers un-scripted helper calls
 
     # ---------------------------------------------------------------- symbol resolution
     def resolve_dotted(self, dotted_name: str, _depth: int = 0):
